@@ -294,6 +294,21 @@ def run(ctx):
     default_evaluator = bool(H.draw(2))  # the tracker is built without naming an evaluator (library default)
     eval_in_pipeline = algo == "gp" and stratum == "normal" and H.draw(3) == 0
     ctx.sample["evaluate_step_last"] = eval_in_pipeline
+    # warm start: the initial population was scored before under another problem that is still alive, and that
+    # earlier score equals one of the targets (only the fitness under the problem being searched may stop the search)
+    screened = algo == "gp" and H.draw(3) == 0
+    ctx.sample["screened_initial_population"] = screened
+    proxy_value = float(targets[0]) if targets else 12345.0
+    proxy = SingleObjectiveProblem(lambda p: proxy_value, minimize=minimize)
+
+    from geneticengine.algorithms.gp.operators.initializers import StandardInitializer
+
+    class Screened(StandardInitializer):
+        def initialize(self, problem, representation, random, target_size, **kwargs):
+            for ind in super().initialize(problem, representation, random, target_size, **kwargs):
+                ind.set_fitness(proxy, proxy.evaluate(ind.get_phenotype()))
+                yield ind
+
     with installed_clock(clock):
         top = build(bdesc, top=True)
         for attempt in range(2 if reuse else 1):
@@ -316,6 +331,9 @@ def run(ctx):
                 kw["number_of_mutations"] = hc_n
             if algo == "gp":
                 kw["population_size"] = pop
+                if screened:
+                    ctx.faults["carry_over"] += 1
+                    kw["population_initializer"] = Screened()
                 if step_desc is not None:
                     kw["step"] = build_step(step_desc)
                 if eval_in_pipeline:
